@@ -51,7 +51,7 @@ CHECKS = {
    tech='runtime monitoring: boundary recorder + two independent reference evaluators + metamorphic order check'),
  'C09': dict(sec='2/C09', cat='exploration',
    text='Well-supported fits are compared with dense weighted lstsq on an independently built design matrix (fitted values, chi-square, coefficients), with polynomial reproduction, zero-weight invariance (bit-identical) and linearity; the banded Cholesky pair is checked by dense reconstruction on random SPD matrices and must signal non-PD/non-finite input; ill-posed fits (gaps, empty segments, zero-weight runs, few points) must return a status code with finite coefficients and terminate under refitting. Counters prove maskpoints and the Cholesky fallback were actually entered.',
-   note='Trusts numpy.linalg.lstsq/solve; well-posed problems use quasi-uniform knots and weights within 3 decades (conditioning assumption stated in the evidence).',
+   note='Trusts numpy.linalg.lstsq/solve; well-posed problems use quasi-uniform knots; weights within 3 decades, or concentrated on one or two pixels as far as every coefficient stays at least twice above the fit\'s own screening level (conditioning assumptions stated in the evidence); status and mask must not depend on the data values (blank-data twin); long vectors (points x order up to 2**22) are generated from the seed at run time.',
    tech='runtime monitoring: boundary recorder + dense linear-algebra oracle + status/mask discipline monitor'),
  'C14': dict(sec='2/C14', cat='exploration',
    text='smooth, median, uniq and rebin are run on generated arrays (all widths, ties, constants, 1-3-D shapes, every expand/keep/shrink combination incl. float-fragile factors, integer and float dtypes) and compared element-wise with reference implementations written from the IDL definitions; shapes/dtypes exact, sample picks exact, integer interpolation within 1 of the exact rational value; refusals must be ValueError. Held on the calls observed (one open IDL-faithful finding for uniq with index on constant arrays).',
